@@ -30,6 +30,7 @@ package system
 //@   ensures err == nil ==> implements(res, Any)
 //@   ensures err != nil ==> res == nil
 //@   ensures implements(input, Any) ==> err == nil && res == input
+//@   ensures istype(res, Boolean) || isStringV(res) ==> !isNum(res)
 //@   ensures istype(input, *dtpb.Boolean) ==> err == nil && istype(res, Boolean)
 //@   ensures err == nil && istype(res, Boolean) ==> istype(input, Boolean) || istype(input, *dtpb.Boolean)
 //@   ensures istype(input, *dtpb.Boolean) && unbox(input, *dtpb.Boolean) != nil ==> unbox(res, Boolean) == unbox(input, *dtpb.Boolean).Value
@@ -52,4 +53,92 @@ package system
 //@   instantiate From(c[0])
 //@   ensures (err != nil) == (tvC(c) == TV_ERR)
 //@   ensures err == nil ==> res == (tvC(c) == TV_T)
+//@   assigns nothing
+//
+// C08: `/` on Integers is the exact quotient correct to 16 decimal places; the divisor must
+// be non-zero here (division by zero is turned into empty by the caller).
+//@ func (i Integer) Div(input Integer) (res Decimal)
+//@   requires input != 0
+//@   ensures absR(res - real(i) / real(input)) * 20000000000000000.0 <= 1.0
+//@   assigns nothing
+//
+// `div`: quotient truncated toward zero; the one unrepresentable case is MinInt32 div -1
+//@ func (i Integer) FloorDiv(input Integer) (res Integer)
+//@   requires input != 0
+//@   requires inInt32(int(i) / int(input))
+//@   ensures int(res) == int(i) / int(input)
+//@   assigns nothing
+//
+// `mod`: a == (a div b)*b + a mod b
+//@ func (i Integer) Mod(input Integer) (res Integer)
+//@   requires input != 0
+//@   ensures int(i) == (int(i) / int(input)) * int(input) + int(res)
+//@   assigns nothing
+//
+//@ func (d Decimal) Add(input Decimal) (res Decimal)
+//@   ensures res == d + input
+//@   assigns nothing
+//@ func (d Decimal) Sub(input Decimal) (res Decimal)
+//@   ensures res == d - input
+//@   assigns nothing
+//@ func (d Decimal) Mul(input Decimal) (res Decimal)
+//@   ensures res == d * input
+//@   assigns nothing
+//@ func (d Decimal) Div(input Decimal) (res Decimal)
+//@   requires input != 0.0
+//@   ensures absR(res - d / input) * 20000000000000000.0 <= 1.0
+//@   assigns nothing
+//
+// `div` on Decimals: the exact quotient truncated toward zero; overflow error iff it does not fit
+//@ func (d Decimal) FloorDiv(input Decimal) (res Integer, err error)
+//@   requires input != 0.0
+//@   ensures (err == nil) == inInt32(truncR(d / input))
+//@   ensures err == nil ==> int(res) == truncR(d / input)
+//@   ensures err != nil ==> is(err, ErrIntOverflow)
+//@   assigns nothing
+//@ func (d Decimal) Mod(input Decimal) (res Decimal)
+//@   requires input != 0.0
+//@   ensures d == real(truncR(d / input)) * input + res
+//@   assigns nothing
+//@ func (d Decimal) Equal(input) (res)
+//@   ensures res == (istype(input, Decimal) && unbox(input, Decimal) == d)
+//@   assigns nothing
+//@ func (d Decimal) Less(input) (res, err)
+//@   ensures istype(input, Decimal) ==> err == nil && res == (d < unbox(input, Decimal))
+//@   ensures !istype(input, Decimal) ==> is(err, ErrTypeMismatch)
+//@   assigns nothing
+//
+// Normalize: implicit promotion Integer -> Decimal (exact), Integer/Decimal -> Quantity,
+// Date -> DateTime; anything else is returned unchanged.
+//@ func Normalize(from, to) (res)
+//@   ensures isInteger(from) && isDecimalV(to) ==> isDecimalV(res) && decOf(res) == real(intOf(from))
+//@   ensures isInteger(from) && isQuantityV(to) ==> isQuantityV(res) && unbox(res, Quantity).value == real(intOf(from)) && unbox(res, Quantity).unit == unbox(to, Quantity).unit
+//@   ensures isDecimalV(from) && isQuantityV(to) ==> isQuantityV(res) && unbox(res, Quantity).value == decOf(from) && unbox(res, Quantity).unit == unbox(to, Quantity).unit
+//@   ensures isInteger(from) && !isDecimalV(to) && !isQuantityV(to) ==> res == from
+//@   ensures isDecimalV(from) && !isQuantityV(to) ==> res == from
+//@   ensures !isInteger(from) && !isDecimalV(from) && !istype(from, Date) ==> res == from
+//@   ensures istype(from, Date) && !istype(to, DateTime) ==> res == from
+//@   ensures istype(from, Date) && istype(to, DateTime) ==> istype(res, DateTime)
+//@   ensures from != nil ==> res != nil
+//@   assigns nothing
+//
+//@ func (c Collection) ToInt32() (res, err)
+//@   requires validColl(c)
+//@   ensures len(c) != 1 ==> err != nil
+//@   ensures len(c) == 1 && isInteger(c[0]) ==> err == nil && int(res) == intOf(c[0])
+//@   ensures len(c) == 1 && (isDecimalV(c[0]) || isStringV(c[0]) || istype(c[0], Boolean)) ==> err != nil
+//@   assigns nothing
+//
+// ToFloat64 goes through float64: the result is only *close to* a Decimal's value
+//@ func (c Collection) ToFloat64() (res, err)
+//@   requires validColl(c)
+//@   ensures len(c) != 1 ==> err != nil
+//@   ensures len(c) == 1 && isInteger(c[0]) ==> err == nil && res == real(intOf(c[0]))
+//@   ensures len(c) == 1 && isDecimalV(c[0]) ==> err == nil && (absR(decOf(c[0])) <= 1000000000000000000000000000000000000000.0 ==> absR(res - decOf(c[0])) * 9007199254740992.0 <= absR(decOf(c[0])))
+//@   ensures len(c) == 1 && isDecimalV(c[0]) && inInt32(truncR(decOf(c[0]))) && decOf(c[0]) == real(truncR(decOf(c[0]))) ==> res == decOf(c[0])
+//@   ensures len(c) == 1 && (isStringV(c[0]) || istype(c[0], Boolean)) ==> err != nil
+//@   assigns nothing
+//
+//@ func (d Decimal) Round(precision) (res)
+//@   ensures res == roundPlaces(d, precision)
 //@   assigns nothing
